@@ -47,6 +47,10 @@ const P2P_SIGNING_PREFIX: [u8; 21] = *b"libp2p-tls-handshake:";
 // Similarly, hash functions with an output length less than 256 bits MUST NOT be used.
 static P2P_SIGNATURE_ALGORITHM: &rcgen::SignatureAlgorithm = &rcgen::PKCS_ECDSA_P256_SHA256;
 
+/// Verification hook: the prefix signed together with the certificate's SubjectPublicKeyInfo.
+#[cfg(feature = "verif")]
+pub const VERIF_P2P_SIGNING_PREFIX: [u8; 21] = P2P_SIGNING_PREFIX;
+
 /// Generates a self-signed TLS certificate that includes a libp2p-specific
 /// certificate extension containing the public key of the given keypair.
 pub fn generate(
@@ -73,6 +77,33 @@ pub fn generate(
     let rustls_certificate = rustls::Certificate(certificate.der().to_vec());
 
     Ok((rustls_certificate, rustls_key))
+}
+
+/// Verification hook: a self-signed certificate like [`generate`]'s whose libp2p extension is
+/// chosen by the caller. `make` receives the SubjectPublicKeyInfo (DER) of the fresh certificate
+/// key and returns the extensions to add: `(publicKey, signature, critical)` triples that are
+/// ASN.1-encoded as `SignedKey` under the libp2p OID (none, one or several), each optionally
+/// replaced by raw extension content. Returns the certificate (DER) and the SPKI. Adds code only.
+#[cfg(feature = "verif")]
+#[allow(clippy::type_complexity)]
+pub fn verif_generate_with(
+    make: impl FnOnce(&[u8]) -> Vec<(Vec<u8>, Vec<u8>, bool, Option<Vec<u8>>)>,
+) -> Result<(Vec<u8>, Vec<u8>), GenError> {
+    use rcgen::PublicKeyData;
+
+    let certificate_keypair = rcgen::KeyPair::generate_for(P2P_SIGNATURE_ALGORITHM)?;
+    let spki = certificate_keypair.subject_public_key_info();
+    let mut params = rcgen::CertificateParams::new(vec![])?;
+    params.distinguished_name = rcgen::DistinguishedName::new();
+    for (public_key, signature, critical, raw) in make(&spki) {
+        let content = raw.unwrap_or_else(|| yasna::encode_der(&(public_key, signature)));
+        let mut ext = rcgen::CustomExtension::from_oid_content(&P2P_EXT_OID, content);
+        ext.set_criticality(critical);
+        params.custom_extensions.push(ext);
+    }
+    let certificate = params.self_signed(&certificate_keypair)?;
+
+    Ok((certificate.der().to_vec(), spki))
 }
 
 /// Attempts to parse the provided bytes as a [`P2pCertificate`].
